@@ -22,7 +22,9 @@ RULE = ('(a) process_renames is called directly with each of the three real coll
         '(the ACL stub places the rules that define the user attributes a formula mentions before, between and after '
         'the formula rule and renames columns of the attribute lookup tables); '
         '(c) end to end through the real engine: documents with ACL resources/rules (1-3 user attributes whose lookup '
-        'tables may differ from the rule table, attribute rules in random row-id order relative to the rules using them), dropdown '
+        'tables may differ from the rule table, attribute rules in random row-id order relative to the rules using them; '
+        'ONE condition text shared by columns that reference different tables (C, D with same-named columns, T itself) or '
+        'none, by ACL rules of different resources and by triggers of different tables), dropdown '
         'conditions on Ref/RefList/other columns and trigger conditions (text and config mode), then RenameColumn / '
         'RenameTable / a bulk rename; oracle: new text = old text with exactly the expected name tokens replaced, '
         'parse(new) = rename of parse(old), stored parsed form = parse(stored text), column lists and lookup columns '
@@ -523,6 +525,7 @@ E2E_FORMULAS = [
   'user.Other.A == 1', 'A == 1 and rec.A', 'f(rec.A, k=rec.B)', 'newRec.A is None', 'choice.A == rec.A',
   'choice.B == $AA and rec.B', 'choice.Name in rec.R', 'oldRec.A != rec.A and $N > 0', 'rec.f(rec.A, k=$B).A',
   '( $A not in rec.AA or $AA + $B == rec.A)', '( rec.A !=  # ünîcødé comment\n  user.Cust.Name)',
+  'choice.Name == $A and rec.N > 0', 'choice.A == rec.A or choice.B', 'choice.AA != $AA',
   "+ 'New' in choice.A and $A == rec.A", 'rec.A < rec.B < rec.AA', 'rec.A[0]', '-rec.N > 0', 'rec.N > -1',
 ]
 E2E_UNPARSABLE = ['rec.A ==', 'rec.A if', 'rec.A == 1)', '$A $B', '"unterminated', 'rec.A and', 'def f(): return rec.A', 'x = rec.A']
@@ -548,7 +551,10 @@ def gen_spec(rng, g):
   # user attributes: several, with lookup tables that may differ from the table of the rules that use them
   attrs = [{'name': n, 'tableId': t, 'lookupColId': c, 'charId': 'Email'}
            for n, t, c in rng.sample([('Cust', 'C', 'A'), ('Sch', 'T', 'AA'), ('Oth', 'C', 'Name')], rng.randint(1, 3))]
-  rules = [entry(formula(True), table=rng.choice(['T', 'T', 'C'])) for _ in range(rng.randint(1, 4))]
+  rules = [entry(formula(True), table=rng.choice(['T', 'T', 'C', 'D'])) for _ in range(rng.randint(1, 4))]
+  if rng.random() < 0.4:           # one formula text shared by rules on different resources / tables
+    f = formula(False)
+    rules += [entry(f, table=t) for t in rng.sample(['T', 'C', 'D'], rng.randint(2, 3))]
   rules = [r for r in rules if r['formula']] + [{'attr': a} for a in attrs]
   # row-id order of the rules is the list order: attribute rules before, between and after the rules that use them
   k = rng.random()
@@ -558,11 +564,27 @@ def gen_spec(rng, g):
     rules.sort(key=lambda r: 'attr' not in r)        # attribute rules first
   else:
     rng.shuffle(rules)
+  # dropdown conditions: often ONE text on several columns that reference different tables (C, D, T itself) or none
+  dc_cols = ['B', 'R', 'B2', 'R2', 'S', 'Ch', 'N']
+  if rng.random() < 0.5:
+    f = rng.choice([x for x in E2E_FORMULAS if 'choice.' in x] + [formula(False)])
+    shared = rng.sample(dc_cols, rng.randint(2, 4))
+    dcs = [entry(f, col=c) for c in shared]
+    dcs += [entry(formula(True), col=c) for c in rng.sample([c for c in dc_cols if c not in shared], rng.randint(0, 2))]
+  else:
+    dcs = [entry(formula(True), col=c) for c in rng.sample(dc_cols, rng.randint(0, 3))]
+  rng.shuffle(dcs)
+  triggers = [entry(formula(True), mode=rng.choice(['text', 'config']), table=rng.choice(['T', 'T', 'C', 'D']))
+              for _ in range(rng.randint(0, 2))]
+  if rng.random() < 0.3:           # one condition text on triggers of different tables
+    f = formula(False)
+    triggers += [entry(f, mode=rng.choice(['text', 'config']), table=t) for t in rng.sample(['T', 'C', 'D'], 2)]
   spec = {
-    'colids': {'T': rng.choice(['*', 'A', 'A,AA', 'B,A,N', 'AA,Ch']), 'C': rng.choice(['*', 'A', 'A,B', 'Name,A'])},
+    'colids': {'T': rng.choice(['*', 'A', 'A,AA', 'B,A,N', 'AA,Ch']), 'C': rng.choice(['*', 'A', 'A,B', 'Name,A']),
+               'D': rng.choice(['*', 'A', 'Name,AA', 'B,A'])},
     'acl_rules': rules,
-    'dcs': [entry(formula(True), col=c) for c in rng.sample(['B', 'R', 'Ch', 'N'], rng.randint(0, 3))],
-    'triggers': [entry(formula(True), mode=rng.choice(['text', 'config'])) for _ in range(rng.randint(0, 2))],
+    'dcs': dcs,
+    'triggers': triggers,
     'actions': [],
   }
   spec['triggers'] = [t for t in spec['triggers'] if t['formula']]
@@ -570,11 +592,15 @@ def gen_spec(rng, g):
   attr_table = {a['name']: a['tableId'] for a in attrs}
   uses = [(attr_table[m.group(1)], m.group(2)) for r in rules if 'formula' in r
           for m in re.finditer(r'user\s*\.\s*(\w+)\s*\.\s*(\w+)', r['formula']) if m.group(1) in attr_table]
-  cols = {'T': [c for c, _ in pred_e2e.T_COLS], 'C': [c for c, _ in pred_e2e.C_COLS]}
-  tname = {'T': 'T', 'C': 'C'}
+  # choice.<Col> in a dropdown condition: renames of <Col> in a referenced table (C or D, or T for T.S) are likely
+  for d in dcs:
+    for m in re.finditer(r'choice\s*\.\s*(\w+)', d['formula']):
+      uses += [(t, m.group(1)) for t in ('C', 'D', 'T')]
+  cols = {t: [c for c, _ in cs] for t, cs in pred_e2e.TABLE_COLS.items()}
+  tname = {'T': 'T', 'C': 'C', 'D': 'D'}
   for _ in range(rng.randint(1, 3)):
     k = rng.random()
-    t = rng.choice(['T', 'T', 'C'])
+    t = rng.choice(['T', 'T', 'C', 'D'])
     if k < 0.75 and cols[t]:
       old = rng.choice(cols[t])
       hits = [(ut, uc) for ut, uc in uses if uc in cols[ut]]
@@ -607,6 +633,14 @@ REGRESSION_SPECS = [
                  {'attr': {'name': 'Sch', 'tableId': 'T', 'lookupColId': 'AA', 'charId': 'Email'}}],
    'dcs': [], 'triggers': [], 'actions': [['RenameColumn', 'C', 'Name', 'Title'], ['RenameTable', 'C', 'Customers'],
                                           ['RenameColumn', 'T', 'AA', 'X']]},
+  # one condition text on columns that reference DIFFERENT tables with a same-named column (and on a non-reference
+  # column): choice.Name belongs to the table each column references; rename it in the second table, then in the first
+  {'colids': {'T': '*', 'C': '*', 'D': 'Name,A'},
+   'acl_rules': [{'table': t, 'formula': 'rec.Name == user.Cust.Name', 'raw': False} for t in ('C', 'D')],
+   'dcs': [{'col': c, 'formula': 'choice.Name == $A and rec.N > 0', 'raw': False} for c in ('B', 'B2', 'R2', 'Ch', 'S')],
+   'triggers': [{'mode': 'text', 'formula': '$Name != oldRec.Name', 'raw': False, 'table': t} for t in ('C', 'D')],
+   'actions': [['RenameColumn', 'D', 'Name', 'Region'], ['RenameColumn', 'C', 'Name', 'Title'],
+               ['RenameColumn', 'T', 'A', 'First']]},
 ]
 
 
